@@ -22,6 +22,8 @@ from vlib import log
 FAMILY = "worlds"
 SITE = "Reasoner::infer_new_facts_with_provenance"
 ALL_MODES = ["dnf", "sdd", "minmax", "bool", "topk", "addmult"]
+# the exact modes with a provenance object (shared manager / weight table) that was used before, under other probabilities
+WARM_MODES = ["dnf-warm", "sdd-warm", "minmax", "bool"]
 
 
 # ------------------------------------------------------------------ classification (no oracle here)
@@ -119,8 +121,9 @@ def validate(trace_path, verdict, tag, nshards=1, timeout=3600):
         failed.add((rid, mode))
         observed = [e for e in ev[1:] if e["mode"] == mode]
         one = dict(case)
-        one["modes"] = [mode]
-        verdict.violation(sig_for(case, mode, reason),
+        warm = any(e.get("warm") for e in observed)
+        one["modes"] = [mode + "-warm" if warm else mode]
+        verdict.violation(sig_for(case, mode, reason) + (",provenance-object-reused" if warm else ""),
                           {"driver": "c06", "case": one, "mode": mode, "reason": reason, "observed": observed},
                           detail=f"run {rid}: [s,p,o,observed,expected]={witness.get((rid, mode), '')}")
     skipped = {(i[0], i[2]) for i in infos if i[1] == "skipped"}
@@ -174,7 +177,7 @@ def l2_cases(behaviours, seed):
         perm = terms[:]
         rnd.shuffle(perm)
         cases.append({"rules": b["rules"], "certain": b["certain"], "seeds": b["seeds"], "den": b["den"], "perm": perm,
-                      "modes": ALL_MODES, "k": rnd.choice([1, 2, 3, 5]), "hasmodel": True, "model": b["model"]})
+                      "modes": WARM_MODES if len(cases) % 4 == 3 else ALL_MODES, "k": rnd.choice([1, 2, 3, 5]), "hasmodel": True, "model": b["model"]})
     return cases
 
 
